@@ -3,4 +3,4 @@
 # property (scratch clone via seedtest.sh, 4 in parallel) and prints one line per seed; C16-a is obsolete (fix F17).
 cd "$(dirname "$0")/../.."
 IDS="${@:-$(ls seeded | grep -v -E "^C16-(a|e)$")}"
-for s in $IDS; do echo "$s"; done | xargs -P 4 -I{} bash -c 's={}; p=${s%%-*}; r=$(harness/tools/seedtest.sh seeded/$s/patch.diff $p 2>&1 | grep -E "^== |PATCH DOES NOT" | tr "\n" " "); echo "$s $r"'
+for s in $IDS; do echo "$s"; done | xargs -P 4 -I{} bash -c 's={}; p=${s%%-*}; r=$(harness/tools/seedtest.sh seeded/$s/patch.diff $p 2>&1 | grep -E "^== |PATCH DOES NOT|^VIOLATION" | sed -e "s/replay=.*json//" | tr "\n" " "); echo "$s $r"'
